@@ -181,9 +181,13 @@ fn streams() -> Vec<Vec<Sym>> {
         // (C06 only) found by the sequential explorer: timestamps 0 then an invalid (max) timestamp: a newer lifecycle
         // gets confirmed while an older one is still buffered when the stream ends
         by(&["A+65000ms:Suspend", "A+2000ms:Cont", "A+2000ms:Cont", "A+2000ms:Cont", "A+2000ms:TsMax", "A+2000ms:Cont"]),
+        // (C13 + C06) a confirmed lifecycle keeps receiving messages after its publication while another ECU's
+        // lifecycle is still buffered when the stream ends: the end of the stream publishes twice (buffered
+        // lifecycles, then the changed ones) with the flush of the buffered messages in between
+        by(&["A+2000ms:Cont", "A+65000ms:Cont", "A+2000ms:Cont", "B+2000ms:Cont", "A+2000ms:Cont"]),
     ]
 }
-const C13_STREAMS: usize = 3;
+const C13_STREAM_IDS: [usize; 4] = [0, 1, 2, 8];
 
 #[derive(Clone, Debug, PartialEq, Eq, Default)]
 struct Outcome {
@@ -195,6 +199,10 @@ struct Outcome {
     unpublished: Vec<u32>,
     /// for drop mode: all stage threads joined
     joined: bool,
+    /// drain mode: lifecycles of the final table for which a consumer that follows the table incrementally
+    /// (takes an entry when its lcs_w_refresh_idx is newer than the newest one it has seen, as the remote server
+    /// does before every receive) ends with other values than the table holds
+    stale_incremental: Vec<String>,
 }
 
 type Lw = evmap::WriteHandle<LifecycleId, adlt::lifecycle::LifecycleItem, (), nohash_hasher::BuildNoHashHasher<LifecycleId>>;
@@ -256,7 +264,7 @@ fn pipeline(cfg: &Config, msgs: &[DltMessage], bounded: bool) -> Outcome {
             let ok = lcs_r.get_one(&m.lifecycle).is_some();
             delivered.lock().unwrap().push((m, ok));
         }
-        return finish_outcome(&delivered, &lcs_r, lw, true);
+        return finish_outcome(&delivered, &lcs_r, lw, true, None);
     }
 
     // bounded, threaded pipeline: every edge a sync_channel(cap) sent through the real helper
@@ -305,9 +313,31 @@ fn pipeline(cfg: &Config, msgs: &[DltMessage], bounded: bool) -> Outcome {
         let mut n = 0usize;
         if let Consumer::DropAfter(0) = consumer_mode {
             drop(rx);
-            return;
+            return None;
         }
-        for m in rx.iter() {
+        // incremental view of the lifecycle table (the protocol of remote.rs: entries with a refresh index newer than the newest seen)
+        let mut last_seen_idx = 0u32;
+        let mut view: BTreeMap<LifecycleId, (u32, u64, u32)> = BTreeMap::new();
+        let mut poll = |view: &mut BTreeMap<LifecycleId, (u32, u64, u32)>| {
+            if let Some(rd) = lr.read() {
+                let mut newest = last_seen_idx;
+                for (id, b) in &rd {
+                    if let Some(l) = b.get_one() {
+                        if l.lcs_w_refresh_idx > last_seen_idx {
+                            newest = newest.max(l.lcs_w_refresh_idx);
+                            view.insert(*id, (l.nr_msgs, l.start_time, l.lcs_w_refresh_idx));
+                        }
+                    }
+                }
+                last_seen_idx = newest;
+            }
+        };
+        loop {
+            poll(&mut view);
+            let m = match rx.recv() {
+                Ok(m) => m,
+                Err(_) => break,
+            };
             // C06 (reader in another thread): the lifecycle must be visible, with the message's ECU, right now.
             // The read guard is dropped before the next scheduling point.
             let ok = lr.get_one(&m.lifecycle).map(|l| ecu_rewritten || l.ecu == m.ecu).unwrap_or(false);
@@ -315,10 +345,13 @@ fn pipeline(cfg: &Config, msgs: &[DltMessage], bounded: bool) -> Outcome {
             n += 1;
             if let Consumer::DropAfter(k) = consumer_mode {
                 if n >= k {
-                    break;
+                    return None;
                 }
             }
         }
+        // the channel is disconnected: every stage has finished, the table is final
+        poll(&mut view);
+        Some(view)
         // rx dropped here
     });
     // every thread must terminate (shuttle reports "deadlock" if a join can never return)
@@ -327,11 +360,11 @@ fn pipeline(cfg: &Config, msgs: &[DltMessage], bounded: bool) -> Outcome {
     for t in stage_threads {
         t.join().unwrap();
     }
-    consumer.join().unwrap();
-    finish_outcome(&delivered, &lcs_r, lw, true)
+    let view = consumer.join().unwrap();
+    finish_outcome(&delivered, &lcs_r, lw, true, view)
 }
 
-fn finish_outcome(delivered: &Arc<Mutex<Vec<(DltMessage, bool)>>>, lcs_r: &evmap::ReadHandle<LifecycleId, adlt::lifecycle::LifecycleItem, (), nohash_hasher::BuildNoHashHasher<LifecycleId>>, lw: Lw, joined: bool) -> Outcome {
+fn finish_outcome(delivered: &Arc<Mutex<Vec<(DltMessage, bool)>>>, lcs_r: &evmap::ReadHandle<LifecycleId, adlt::lifecycle::LifecycleItem, (), nohash_hasher::BuildNoHashHasher<LifecycleId>>, lw: Lw, joined: bool, view: Option<BTreeMap<LifecycleId, (u32, u64, u32)>>) -> Outcome {
     let del = delivered.lock().unwrap();
     // canonical ids by first appearance in *index* order (schedule independent even for sorted pipelines)
     let mut by_index: Vec<&(DltMessage, bool)> = del.iter().collect();
@@ -344,6 +377,18 @@ fn finish_outcome(delivered: &Arc<Mutex<Vec<(DltMessage, bool)>>>, lcs_r: &evmap
                 table_src.push((*id, *l.ecu.as_buf(), l.nr_msgs, l.start_time));
             }
         }
+    }
+    let mut stale_incremental = vec![];
+    if let (Some(view), Some(rd)) = (view, lcs_r.read()) {
+        for (id, b) in &rd {
+            if let Some(l) = b.get_one() {
+                match view.get(id) {
+                    Some((n, st, _)) if *n == l.nr_msgs && *st == l.start_time => {}
+                    other => stale_incremental.push(format!("lifecycle of {:?} with {} msgs (refresh idx {}): incremental view has {:?}", l.ecu, l.nr_msgs, l.lcs_w_refresh_idx, other)),
+                }
+            }
+        }
+        stale_incremental.sort();
     }
     table_src.sort();
     // ids are allocated in creation order; canonicalise by ascending raw id (creation order is schedule independent
@@ -361,6 +406,7 @@ fn finish_outcome(delivered: &Arc<Mutex<Vec<(DltMessage, bool)>>>, lcs_r: &evmap
         table: table_src.iter().map(|(id, e, n, s)| (canon[id], *e, *n, *s)).collect(),
         unpublished: del.iter().filter(|(_, ok)| !ok).map(|(m, _)| m.index).collect(),
         joined,
+        stale_incremental,
     };
     drop(lw);
     out
@@ -416,6 +462,9 @@ impl ExecCheck {
                     }
                 } else if o.delivered != self.reference.delivered {
                     return Some(("sequence_differs", format!("delivered {:?} != reference {:?}", o.delivered, self.reference.delivered)));
+                }
+                if !o.stale_incremental.is_empty() {
+                    return Some(("incremental_table_stale", format!("a consumer following the table by refresh index ends with stale entries: {:?}", o.stale_incremental)));
                 }
                 if o.table != self.reference.table {
                     return Some(("table_differs", format!("final lifecycle table {:?} != reference {:?}", o.table, self.reference.table)));
@@ -586,12 +635,11 @@ impl Prop for SchedProp {
         let thorough = ctx.tier == Tier::Thorough;
         let caps: &[usize] = &[0, 1, 2];
         let consumers: Vec<Consumer> = vec![Consumer::Drain, Consumer::DropAfter(0), Consumer::DropAfter(1), Consumer::DropAfter(2)];
-        let nstreams = C13_STREAMS;
         let exec_cap: u64 = if thorough { 5_000_000 } else { 400_000 };
         for shape in SHAPES {
             for &cap in caps {
                 for consumer in &consumers {
-                    for stream in 0..nstreams {
+                    for stream in C13_STREAM_IDS {
                         // quick: drop modes only on stream 1
                         if !thorough && *consumer != Consumer::Drain && stream != 1 {
                             continue;
